@@ -676,7 +676,7 @@ impl<'a> ValueGen<'a> {
                 RV::Union(i as u32, Box::new(self.gen(rng, &bs[i], depth + 1)))
             }
             RS::Ref { full, .. } => {
-                let t = self.defs.get(full).unwrap_or_else(|| panic!("gen: unknown ref {full}"));
+                let t = self.defs.get(full.trim_start_matches('.')).unwrap_or_else(|| panic!("gen: unknown ref {full}"));
                 self.gen(rng, t, depth + 1)
             }
             RS::Logical(l, base) => self.gen_logical(rng, l, base),
@@ -775,7 +775,7 @@ impl<'a> ValueGen<'a> {
 
 pub fn to_avro(v: &RV, s: &RS, defs: &Defs) -> Value {
     match (s, v) {
-        (RS::Ref { full, .. }, _) => to_avro(v, &defs[full], defs),
+        (RS::Ref { full, .. }, _) => to_avro(v, &defs[full.trim_start_matches('.')], defs),
         (RS::Null, RV::Null) => Value::Null,
         (RS::Boolean, RV::Bool(b)) => Value::Boolean(*b),
         (RS::Int, RV::Int(i)) => Value::Int(*i),
@@ -927,7 +927,7 @@ pub fn wrong_kind_value(s: &RS, defs: &Defs) -> Value {
 
 pub fn deref<'a>(s: &'a RS, defs: &'a Defs) -> &'a RS {
     match s {
-        RS::Ref { full, .. } => deref(&defs[full], defs),
+        RS::Ref { full, .. } => deref(&defs[full.trim_start_matches('.')], defs),
         _ => s,
     }
 }
